@@ -372,7 +372,7 @@ for _u in UNITS:
 for i, nm in enumerate(("item_read", "item_write", "item_drop", "item_ref", "item_mut", "value_mut")):
     add("kc_" + nm, "core_contracts::h_accessor::<{N}>(%d)" % i, ["C02", "C05", "C06"] if nm in ("item_ref", "item_mut", "value_mut") else ["C02", "C05"], N_(1, 2), N_(1, 2, 3, 4),
         unwind="10", contracts=True, kind="contract", backend="kani-contract", attrs=["#[kani::proof_for_contract(Map::<u8, u8, {N}>::%s)]" % nm],
-        fn="Map::%s (slot accessor: bounds, frame, value/address) - the contract Verus assumes" % nm, shape="S_u8")
+        fn="Map::%s (slot accessor: bounds, frame, value/address) - the contract Verus assumes for item_read and itself proves (against vstd's MaybeUninit model) for the other five" % nm, shape="S_u8")
 add("kc_remove_index_read", "core_contracts::h_remove_index_read::<{N}>()", ["C01"], N_(2), N_(1, 2, 3), timeout="40m", unwind="10", contracts=True, kind="contract",
     backend="kani-contract", attrs=["#[kani::proof_for_contract(Map::<u8, u8, {N}>::remove_index_read)]"],
     fn="Map::remove_index_read function contract (exact swap-remove permutation in bytes, modifies(self))", shape="S_u8")
